@@ -73,11 +73,20 @@ mod config;
 mod executor;
 mod handle;
 mod message;
+#[cfg(not(feature = "verif"))]
 mod query;
+#[cfg(feature = "verif")]
+pub mod query;
 mod record;
 mod routing_table;
+#[cfg(not(feature = "verif"))]
 mod store;
+#[cfg(feature = "verif")]
+pub mod store;
+#[cfg(not(feature = "verif"))]
 mod types;
+#[cfg(feature = "verif")]
+pub mod types;
 
 mod schema {
     pub(super) mod kademlia {
